@@ -318,6 +318,20 @@ def explore_shard(acc, shard):
                     acc.outcome("negative timing source")
                     for f in fails:
                         acc.violation(f["clause"], case, f["expected"], f["observed"], signature=(f["clause"],))
+        # zero is not negative: such sources must be converted
+        for key, val in (("STOPS", "4.000=0.000"), ("STOPS", "1.000=0,\n2.000=0.5"), ("BPMS", "0.000=120.000,\n8.000=0.000")):
+            for st, ct in template_pairs("reduced"):
+                for cl in CHART_LISTS[:3]:
+                    case = {"kind": "conversion", "optional": [0], "mandatory": [0, 0, 0], "charts": cl, "sim_template": st, "chart_template": ct, "override": {key: val}}
+                    core.guard_cheap(acc, case)
+                    fails = check_case(case)
+                    acc.count("evaluations")
+                    acc.count("states")
+                    acc.count("transitions")
+                    acc.count("nontrivial")
+                    acc.outcome("zero-valued stop / BPM source")
+                    for f in fails:
+                        acc.violation(f["clause"], case, f["expected"], f["observed"], signature=(f["clause"], "zero"))
         acc.sample(layer, case)
     elif kind == "corpus":
         for st, ct in template_pairs("full"):
@@ -366,6 +380,7 @@ def explore(run):
     core.require(acc.outcomes["empty caller template"] > 0, "no empty template")
     core.require(acc.outcomes["template that already has a chart"] > 0, "no template with chart")
     core.require(acc.outcomes["negative timing source"] > 0, "no negative source")
+    core.require(acc.outcomes["zero-valued stop / BPM source"] > 0, "no zero-valued source")
     core.require(acc.c["corpus_conversions"] > 0, "no corpus conversion")
     return run.finish(
         states=acc.c["states"],
